@@ -54,6 +54,10 @@ def rf_configs(draw, spf_cap=4096, boundary_p=0.6, force=None):
         n, d = draw(st.sampled_from(HIGH_RATES))
     else:
         n, d = draw(rates(allow_high=spf_cap >= 2048))
+    if not force_big and spf_cap < 2048 and _spf(n, d, 1) > 8 * spf_cap:
+        # even 1 ms files would be far above the cap: checks that look at every sample at every crash point / fault
+        # use a moderate rate instead (large files are covered by the checks with spf_cap >= 2048)
+        n, d = draw(st.sampled_from([(1, 1), (100, 1), (200, 3), (44100, 1), (1000, 1), (125, 2), (10, 3), (1001, 7), (48000, 1)]))
     # file cadence: at least one sample in *every* file  <=> F*n >= 1000*d ; cap samples per file
     cands = [F for F in CADENCES if F * n >= 1000 * d and _spf(n, d, F) <= spf_cap]
     if not cands:
@@ -119,6 +123,10 @@ def rf_configs(draw, spf_cap=4096, boundary_p=0.6, force=None):
         t = draw(st.integers(T1980, T2100 - 86400))
         start = (t * n) // d + draw(st.integers(0, max(0, spf - 1)))
     cfg["start"] = max(0, start)
+    if force_big:
+        # move forward by whole years (whole seconds: boundary alignment is kept) until the index exceeds 2^53
+        while cfg["start"] <= 1 << 53:
+            cfg["start"] += (365 * 86400 * n) // d
     if force_big and float(cfg["start"]) == cfg["start"]:
         cfg["start"] += 1  # make it odd / inexact in binary64
         if float(cfg["start"]) == cfg["start"]:
